@@ -625,7 +625,12 @@ impl Model {
         }
         // (a second mark right at the start is an ordinary counted character of line 1: the
         // parser ignores exactly one leading mark)
-        let bom_inside = t.strip_prefix('\u{feff}').unwrap_or(t).contains('\u{feff}');
+        // (nor is a mark at the very start of a later line special: the parser counts it as the
+        // first character of that line - what a reader's window of recent bytes may begin with)
+        let bom_inside = {
+            let rest = t.strip_prefix('\u{feff}').unwrap_or(t);
+            rest.char_indices().any(|(i, ch)| ch == '\u{feff}' && i > 0 && !rest[..i].ends_with('\n'))
+        };
         Model { lines, lone_cr, bom_inside, ends_with_newline: t.ends_with('\n') }
     }
     fn line(&self, n: usize) -> Option<&str> {
@@ -1323,7 +1328,7 @@ fn check_with(c: &Case, f: &Facts) -> Result<Notes, String> {
         notes.caret_skipped.push("message spans several lines");
     }
     // is the snippet form promised? (string entry points, options as documented)
-    let snippet_expected = matches!(c.entry, Entry::Str | Entry::Slice)
+    let snippet_expected = matches!(c.entry, Entry::Str | Entry::Slice | Entry::Multi)
         && layout_ok
         && !validation
         && c.opts.snippet
@@ -1453,9 +1458,11 @@ fn check_with(c: &Case, f: &Facts) -> Result<Notes, String> {
         // and the other Unicode line breaks NEL / LS / PS, which the model does not split at)
         let directive_mb = c.text.lines().any(|ln| ln.trim_start().starts_with('%') && !ln.is_ascii());
         let other_breaks = c.text.contains(['\u{85}', '\u{2028}', '\u{2029}']);
-        if layout_ok && !validation && !m.label_offsets.is_empty() && !c.text.contains('\0') && !(reader && comment_mb) && !directive_mb && !other_breaks {
+        if layout_ok && !validation && !c.text.contains('\0') && !(reader && comment_mb) && !directive_mb && !other_breaks {
             if let Some((l, col)) = f.loc {
                 if let Some(want) = byte_offset_of(&c.text, l, col) {
+                    // (the position just after the last character included: an error at the end
+                    // of the input has a place in the report like any other)
                     if !m.label_offsets.contains(&want) {
                         return Err(format!("{tag} no label starts at byte {want} = line {l} column {col} of the source; labels start at {:?}", m.label_offsets));
                     }
@@ -2483,6 +2490,11 @@ fn gen_all(ctx: &mut Ctx<C17>) {
                     // character: the snippet must not drop both)
                     if entry != Entry::Multi {
                         emit(ctx, &t, "bom-prefixed", format!("\u{feff}\u{feff}{body}"), target, entry, opts_with(crop, true));
+                    }
+                    // (a mark at the start of a later line, beyond what a reader keeps of the
+                    // beginning of the stream: the window of recent bytes begins with it)
+                    if entry != Entry::Multi {
+                        emit(ctx, &t, "bom-prefixed", format!("# {}\n\u{feff}{body}", "c".repeat(4000)), target, entry, opts_with(crop, true));
                     }
                 }
             }
